@@ -370,6 +370,79 @@ fn new_sconst(bits: usize, key: &[u8], keyed: bool) -> Box<dyn HCtx> {
     }
 }
 
+/// A context stored behind a prefix of K machine words inside a `repr(C)` wrapper (history field "place": K).
+/// Where the context lands depends only on the alignment its own type declares: the AVX BLAKE2 code loads the
+/// chaining value with aligned loads and relies on `repr(align(32))` of the engine (C16).
+#[repr(C)]
+struct Wrap<T, const K: usize> {
+    pre: [u64; K],
+    inner: T,
+}
+macro_rules! wrap_impl {
+    ($t:ty, $w:ty) => {
+        impl<const K: usize> HCtx for Wrap<$t, K> {
+            fn update(mut self: Box<Self>, d: &[u8]) -> Box<dyn HCtx> {
+                self.inner.update_mut(d);
+                self
+            }
+            fn update_mut(&mut self, d: &[u8]) {
+                self.inner.update_mut(d)
+            }
+            fn finalize(mut self: Box<Self>) -> Vec<u8> {
+                HCtx::finalize_reset(&mut *self)
+            }
+            fn finalize_reset(&mut self) -> Vec<u8> {
+                let n = self.inner.output_bits() / 8;
+                HCtx::finalize_reset_at(self, n)
+            }
+            fn finalize_at(mut self: Box<Self>, n: usize) -> Vec<u8> {
+                HCtx::finalize_reset_at(&mut *self, n)
+            }
+            fn finalize_reset_at(&mut self, n: usize) -> Vec<u8> {
+                let mut out = vec![0xa5u8; n];
+                self.inner.finalize_reset_at(&mut out);
+                out
+            }
+            fn reset(&mut self) {
+                self.inner.reset()
+            }
+            fn reset_with_key(&mut self, k: &[u8]) {
+                self.inner.reset_with_key(k)
+            }
+            fn finalize_reset_with_key(&mut self, k: &[u8]) -> Vec<u8> {
+                let n = self.inner.output_bits() / 8;
+                HCtx::finalize_reset_with_key_at(self, k, n)
+            }
+            fn finalize_reset_with_key_at(&mut self, k: &[u8], n: usize) -> Vec<u8> {
+                let mut out = vec![0xa5u8; n];
+                self.inner.finalize_reset_with_key_at(k, &mut out);
+                out
+            }
+            fn clone_box(&self) -> Box<dyn HCtx> {
+                Box::new(Wrap::<$t, K> { pre: self.pre, inner: self.inner.clone() })
+            }
+            fn set_counter(&mut self, t0: u64, t1: u64) {
+                self.inner.verif_set_counter(t0 as $w, t1 as $w)
+            }
+        }
+    };
+}
+wrap_impl!(hashing::blake2b::ContextDyn, u64);
+wrap_impl!(hashing::blake2s::ContextDyn, u32);
+fn place<T: 'static>(c: T, k: usize) -> Box<dyn HCtx>
+where
+    T: HCtx,
+    Wrap<T, 1>: HCtx,
+    Wrap<T, 3>: HCtx,
+{
+    match k {
+        0 => Box::new(c),
+        1 => Box::new(Wrap::<T, 1> { pre: [0x5a5a; 1], inner: c }),
+        3 => Box::new(Wrap::<T, 3> { pre: [0x5a5a; 3], inner: c }),
+        _ => panic!("harness: placement {} not instantiated", k),
+    }
+}
+
 /// construct a context; `h` holds alg, and for BLAKE2: api ("dyn"|"const"), outlen (bytes) or bits, key, keyed
 pub fn new_ctx(h: &Ev) -> Box<dyn HCtx> {
     let alg = get_str(h, "alg");
@@ -398,18 +471,20 @@ pub fn new_ctx(h: &Ev) -> Box<dyn HCtx> {
             match (alg, api) {
                 ("blake2b", "dyn") => {
                     let n = get_usize(h, "outlen");
+                    let pl = get_usize_or(h, "place", 0);
                     if keyed {
-                        Box::new(hashing::blake2b::ContextDyn::new_keyed(n, &key))
+                        place(hashing::blake2b::ContextDyn::new_keyed(n, &key), pl)
                     } else {
-                        Box::new(hashing::blake2b::ContextDyn::new(n))
+                        place(hashing::blake2b::ContextDyn::new(n), pl)
                     }
                 }
                 ("blake2s", "dyn") => {
                     let n = get_usize(h, "outlen");
+                    let pl = get_usize_or(h, "place", 0);
                     if keyed {
-                        Box::new(hashing::blake2s::ContextDyn::new_keyed(n, &key))
+                        place(hashing::blake2s::ContextDyn::new_keyed(n, &key), pl)
                     } else {
-                        Box::new(hashing::blake2s::ContextDyn::new(n))
+                        place(hashing::blake2s::ContextDyn::new(n), pl)
                     }
                 }
                 ("blake2b", "const") => new_bconst(get_usize_or(h, "bits", 8 * get_usize_or(h, "outlen", 0)), &key, keyed),
@@ -501,14 +576,14 @@ pub fn run(h: &Ev, evs: &mut Vec<Value>) {
                     Out::None
                 }
             }
-            "oneshot" => Out::Val(oneshot(h, &get_bytes(&e, "data"))),
+            "oneshot" => Out::Val(oneshot(h, get_placed(&e, "data", "off").get())),
             "update" => {
                 let c = slots[x].take().expect("harness: dead slot");
-                slots[x] = Some(c.update(&get_bytes(&e, "data")));
+                slots[x] = Some(c.update(get_placed(&e, "data", "off").get()));
                 Out::None
             }
             "update_mut" => {
-                slots[x].as_mut().expect("harness: dead slot").update_mut(&get_bytes(&e, "data"));
+                slots[x].as_mut().expect("harness: dead slot").update_mut(get_placed(&e, "data", "off").get());
                 Out::None
             }
             "clone" => {
